@@ -4,7 +4,7 @@ foreign images; plus C20's single-fault reads)."""
 from checklib import *
 import c20
 
-VARIANTS = ['none', 'order_big', 'order_plus1', 'order_missing', 'naxis_small', 'naxis_large', 'knots_missing', 'knots_short', 'knots_long', 'knots_unsorted', 'extents_short', 'foreign', 'naxis0']
+VARIANTS = ['none', 'order_big', 'order_plus1', 'order_missing', 'naxis_small', 'naxis_large', 'knots_missing', 'knots_short', 'knots_long', 'knots_unsorted', 'knots_nan', 'knots_nan_first', 'knots_ninf_first', 'knots_pinf_last', 'extents_short', 'foreign', 'naxis0']
 def build_cases(tier):
     shapes = [([1, 0], [1, 1], 1)] if tier == 'quick' else [([1, 0], [1, 1], 1), ([2], [2], 0), ([0, 1, 2], [1, 0, 1], 2)]
     return [c20.case('C07', 'corrupt:' + v, o, e, a) for (o, e, a) in shapes for v in VARIANTS]
@@ -19,7 +19,7 @@ def run_check(tier):
                              symbolic='coefficients uninterpreted; knots concrete rationals (sortedness is decided concretely)')
     out.assumptions = ['files are container-model files: byte-level corruption inside cards or data units surfaces inside cfitsio, which is not encoded (the replay edits real files with real cfitsio)',
                        'memory safety of evaluation on a returned table follows from its well-formedness and C05 (which proves evaluation safe on exactly sized, consistent tables); it is not re-proved here',
-                       'NaN knots are not representable in the exact-real runs (the real-build replay covers them); BITPIX variants are not covered', 'src/tools/eval.cpp and the inspect tool are not encoded']
+                       'NaN and infinite knots are literal constants that can only be compared; BITPIX variants are not covered', 'src/tools/eval.cpp and the inspect tool are not encoded']
     return out.finish()
 
 replay = c20.replay
